@@ -234,7 +234,9 @@ class Shrinker:
 # ---------------------------------------------------------------- search
 def run_workers(exe, engine, tier, seed, tmpdir):
     runs = engine["runs"][tier]
-    budget = engine["budget"][tier]
+    # wall-clock cap after which no new runs are started (never an input of a verdict);
+    # VERIF_BUDGET overrides it for experiments
+    budget = float(os.environ.get("VERIF_BUDGET", engine["budget"][tier]))
     nworkers = min(JOBS, engine.get("max_workers", JOBS))
     base = [exe, "--seed", str(seed), "--runs", str(runs), "--budget", str(budget)]
     if tier == "thorough":
